@@ -32,6 +32,11 @@ def call_vt(ctx, module, function, args, timeout=3600, tag="w", env=None, python
     return res, r
 
 
+def tool_could_not_start(log):
+    return any(x in log for x in ("error while loading shared libraries", "file too short", "cannot open shared object file",
+                                  "No such file or directory: '/verif/build"))
+
+
 def build_all(ctx, pid, specs, workers=None):
     """specs: list of dict(slot, name, text, fname[, key]).  Builds every one with
     gen.build_cached (parallel).  A file that does not generate/compile is a violation of the
@@ -50,8 +55,9 @@ def build_all(ctx, pid, specs, workers=None):
     out = {}
     for s, lib, log in vfcore.pmap(one, specs, workers=workers or min(8, max(2, vfcore.NCPU // 2))):
         if lib is None:
-            if log.startswith("harness exception"):
-                raise vfcore.HarnessFailure(log)
+            if log.startswith("harness exception") or tool_could_not_start(log):
+                # (the build tree is being relinked by a concurrent run after a change of /repo: not an observation)
+                raise vfcore.HarnessFailure(log[-1500:])
             ctx.violation("%s:does-not-build" % s.get("key", s["name"]),
                           "well-formed file %s does not generate/compile:\n%s" % (s["fname"], log[-3000:]),
                           {"file": s["fname"], "text": s["text"], "log": log[-8000:]})
